@@ -194,6 +194,11 @@ class Blockwise(ArrayExpr):
 
         if any(isinstance(op, Delayed) for op in self.operands):
             return False
+        # ... nor when they sit inside a literal argument or a keyword value
+        # (the unfused layer unpacks those with unpack_collections)
+        literals = [arg for arg, ind in toolz.partition(2, self.args) if ind is None]
+        if any(unpack_collections(v)[1] for v in (*literals, *(self.kwargs or {}).values())):
+            return False
 
         # Check for contracted dimensions with multiple blocks
         # These are dimensions in input but not in output - we can only fuse
